@@ -346,6 +346,7 @@ func (g *Gen) havocAllExcept(st *State, preserve []string) {
 	st.heap = kept
 	g.nfresh++
 	st.epoch = fmt.Sprintf("c%d", g.nfresh)
+	st.parents = nil
 	old := st.ac
 	st.ac = g.fresh("ac", "Int")
 	g.assume(st, "(<= "+old+" "+st.ac+")")
